@@ -753,6 +753,11 @@ class Job:
                     statepoint = self.statepoint.load(self.id)
                 except Exception:
                     # Any exception means this method cannot exit early.
+                    if self._statepoint_requires_init:
+                        # The state point is not known (the job was opened by id
+                        # and its state point could not be loaded), so there is
+                        # nothing to initialize the job with.
+                        raise
 
                     # Create the workspace directory if it does not exist.
                     try:
